@@ -159,6 +159,31 @@ def cases(rng):
     mp = rng.choice([0.0, 0.25, 0.5, 0.75, 1.0])
     yield "multilabel_recall_at_fixed_precision", lambda: check_rows(lambda: [list(x) for x in zip(*F.multilabel_recall_at_fixed_precision(ls, ly, num_labels=L, min_precision=mp))],
                                                                      [lambda l=l: list(F.binary_recall_at_fixed_precision(ls[:, l], ly[:, l], min_precision=mp)) for l in range(L)])
+    # ---- toolkit.classwise_converter: entry i of the un-averaged result under the key of class i
+    from torcheval.metrics.toolkit import classwise_converter
+    res = F.multiclass_precision(pred, tgt, num_classes=C, average=None)
+    labs = [f"L{rng.randrange(1000)}_{c}" for c in range(C)]
+
+    def conv_ok():
+        a = classwise_converter(res, "p")
+        b = classwise_converter(res, "p", labs)
+        if list(a) != [f"p_{i}" for i in range(C)] or list(b) != [f"p_{x}" for x in labs]:
+            return "classwise_converter: wrong keys / key order"
+        for i in range(C):
+            if not torch.equal(a[f"p_{i}"], res[i]) or not torch.equal(b[f"p_{labs[i]}"], res[i]):
+                return f"classwise_converter: entry of class {i} is not result[{i}]"
+        for wrong in (labs[:-1], labs + ["x"]):
+            try:
+                classwise_converter(res, "p", wrong)
+                return "classwise_converter accepted a label list whose length differs from the number of classes"
+            except ValueError:
+                pass
+        two = torch.stack([res, res + 1], dim=1)                 # (C, 2): split along the FIRST dimension
+        c2 = classwise_converter(two, "q")
+        if len(c2) != C or not torch.equal(c2[f"q_{C - 1}"], two[C - 1]):
+            return "classwise_converter: 2-D input not split along its first dimension"
+        return None
+    yield "classwise_converter", conv_ok
     # ---- multi-output regression
     D = rng.choice([2, 3]) if not wide else 130
     a = torch.tensor([[rng.randint(-8, 8) / 4 for _ in range(D)] for _ in range(max(n, 2))])
